@@ -1,5 +1,5 @@
 use std::fs;
-use std::path::Path;
+use std::path::{Path, PathBuf};
 
 use action::all_action_types;
 use action::ActionContext;
@@ -52,30 +52,56 @@ pub struct BasePath {
 }
 
 impl BasePath {
-    fn key_to_url(&self, key: &Key) -> Url {
+    fn directory(&self) -> Option<PathBuf> {
         Url::parse(&self.base_path)
-            .unwrap()
-            .join(&key.to_path())
-            .expect("to work")
+            .ok()
+            .and_then(|url| url.to_file_path().ok())
+    }
+
+    // Builds the `file://` url of a library-relative file name through the file path, so
+    // that spaces, `%`, `#`, `?` and non-ASCII characters are percent-encoded the way the
+    // editor encodes them.
+    fn file_url(&self, relative: &str) -> Url {
+        self.directory()
+            .and_then(|directory| Url::from_file_path(directory.join(relative)).ok())
+            .unwrap_or_else(|| {
+                Url::parse(&self.base_path)
+                    .unwrap()
+                    .join(relative)
+                    .expect("to work")
+            })
+    }
+
+    fn key_to_url(&self, key: &Key) -> Url {
+        self.file_url(&key.to_path())
     }
 
     fn relative_to_full_path(&self, url: &str) -> Url {
-        Url::parse(&self.base_path)
-            .unwrap()
-            .join(&format!("{}.md", url.strip_suffix(".md").unwrap_or(url)))
-            .expect("to work")
+        self.file_url(&format!("{}.md", url.strip_suffix(".md").unwrap_or(url)))
     }
 
     fn name_to_url(&self, key: &str) -> Url {
-        Url::parse(&format!("{}{}.md", self.base_path, key)).unwrap()
+        self.file_url(&format!("{}.md", key))
     }
 
     fn url_to_key(&self, url: &Url) -> Key {
-        Key::from_file_name(
-            &url.to_string()
-                .trim_start_matches(&self.base_path)
-                .to_string(),
-        )
+        // compare decoded file paths: the editor percent-encodes what the loader read from disk
+        let relative = self.directory().and_then(|directory| {
+            url.to_file_path().ok().and_then(|path| {
+                path.strip_prefix(&directory)
+                    .ok()
+                    .map(|relative| relative.to_string_lossy().to_string())
+            })
+        });
+
+        match relative {
+            Some(relative) => Key::from_file_name(&relative),
+            None => Key::from_file_name(
+                url.as_str()
+                    .strip_prefix(self.base_path.as_str())
+                    .unwrap_or(url.as_str()),
+            ),
+        }
     }
 }
 
